@@ -672,6 +672,81 @@ def j_c16empty(case, resps):
     return out
 
 
+def j_c18(case, resps):
+    """isApprox: reflexive, symmetric, true well below eps, false well above, q ~ -q"""
+    g = REG[case["group"]]
+    grp = case["group"]
+    X, Y, eps = case["X"], case["Y"], case["eps"]
+    out = []
+    vals = []
+    for line, r in zip(case["reqs"], resps):
+        v, e = parse(r)
+        if v is None:
+            out.append(V("C18", grp, "isApprox", "status", case["tags"], line, "raised: %s" % r[:40], float("inf"), 0))
+            return out
+        vals.append(v[0])
+    xy, yx, xx, eqxx = vals[:4]
+    if xx != 1.0:
+        out.append(V("C18", grp, "isApprox", "reflexive", case["tags"], case["reqs"][2], "X.isApprox(X, eps) is false", 1, 0))
+    if eqxx != 1.0:
+        out.append(V("C18", grp, "==", "reflexive", case["tags"], case["reqs"][3], "X == X is false", 1, 0))
+    # Beyond this point the predicate compares tangent distances with eps; when the rounding error of
+    # the coordinates themselves (s * 1e-14) exceeds eps the question is not decidable in double
+    # precision, so only reflexivity is demanded there (as the property does for large coordinates).
+    if len(vals) > 4 and vals[4] != 1.0:
+        out.append(V("C18", grp, "isApprox", "double-cover", case["tags"], case["reqs"][4], "q and -q (same transformation) are not approximately equal", 1, 0))
+    if lin_scale(grp, X, Y) * 1e-14 > eps:
+        return out
+    if xy != yx:
+        # symmetric unless the tangent distance sits at the threshold itself
+        d = g.log(mp.inverse(g.T(mpl(Y))) * g.T(mpl(X)))
+        m = max(abs(x) for x in d)
+        if not (0.99 * eps < m < 1.01 * eps):
+            out.append(V("C18", grp, "isApprox", "symmetric", case["tags"], case["reqs"][0], "isApprox(X,Y) != isApprox(Y,X)", 1, 0))
+    d = g.log(mp.inverse(g.T(mpl(X))) * g.T(mpl(Y)))      # Y (-) X
+    m = max(abs(x) for x in d)
+    if m <= eps / 100 and yx != 1.0:
+        out.append(V("C18", grp, "isApprox", "below", case["tags"], case["reqs"][1], "tangent distance %.3g << eps but isApprox is false" % float(m), float(m), eps))
+    if m >= 100 * eps and yx != 0.0:
+        out.append(V("C18", grp, "isApprox", "above", case["tags"], case["reqs"][1], "tangent distance %.3g >> eps but isApprox is true" % float(m), float(m), eps))
+    if False and len(vals) > 4 and vals[4] != 1.0:
+        out.append(V("C18", grp, "isApprox", "double-cover", case["tags"], case["reqs"][4], "q and -q (same transformation) are not approximately equal", 1, 0))
+    return out
+
+
+def j_c18t(case, resps):
+    grp = case["group"]
+    a, b, eps = case["a"], case["b"], case["eps"]
+    out = []
+    vals = []
+    for line, r in zip(case["reqs"], resps):
+        v, e = parse(r)
+        if v is None:
+            return [V("C18", grp, "t.isApprox", "status", case["tags"], line, "raised: %s" % r[:40], float("inf"), 0)]
+        vals.append(v[0])
+    ab, ba, aa = vals
+    if aa != 1.0:
+        out.append(V("C18", grp, "t.isApprox", "reflexive", case["tags"], case["reqs"][2], "t.isApprox(t) is false", 1, 0))
+    A, B = mpl(a), mpl(b)
+    na, nb = mp.sqrt(sum(x * x for x in A)), mp.sqrt(sum(x * x for x in B))
+    diff = [x - y for x, y in zip(A, B)]
+    if min(na, nb) < eps * 0.99 or min(na, nb) > eps * 1.01:
+        if min(na, nb) < eps:
+            m = max(abs(x) for x in diff)
+            expect = None if 0.99 * eps < m < 1.01 * eps else (1.0 if m <= eps else 0.0)
+            what = "absolute test against zero"
+        else:
+            lhs, rhs = sum(x * x for x in diff), mpf(eps) ** 2 * min(na, nb) ** 2
+            expect = None if 0.98 * rhs < lhs < 1.02 * rhs else (1.0 if lhs <= rhs else 0.0)
+            what = "relative test"
+        if expect is not None:
+            if ab != expect:
+                out.append(V("C18", grp, "t.isApprox", "value", case["tags"], case["reqs"][0], "%s: expected %r" % (what, expect), 1, 0))
+            if ba != expect:
+                out.append(V("C18", grp, "t.isApprox", "symmetric", case["tags"], case["reqs"][1], "%s: expected %r (swapped arguments)" % (what, expect), 1, 0))
+    return out
+
+
 def _binom(n, k):
     return math.comb(n, k)
 
@@ -764,7 +839,7 @@ def j_c17g(case, resps):
 
 STAGE2 = {"logexp": s2_logexp, "c04": s2_c04, "c16": s2_c16}
 JUDGES = {"c07": j_c07, "c04": j_c04, "c15": j_c15, "c15phi": j_c15phi, "c16": j_c16, "c16empty": j_c16empty,
-          "c17": j_c17, "c17g": j_c17g, "c01": j_c01, "c02": j_c02, "c03a": j_c03_explog, "c03b": j_c03_logexp2,
+          "c17": j_c17, "c17g": j_c17g, "c18": j_c18, "c18t": j_c18t, "c01": j_c01, "c02": j_c02, "c03a": j_c03_explog, "c03b": j_c03_logexp2,
           "c05": j_c05, "c06": j_c06, "c06adj": j_c06_adj}
 
 
@@ -877,6 +952,7 @@ def cases(prop, r, group, n, dbg=True):
 def cases_algo(prop, r, group, n, exe):
     """cases for the algorithm properties (need the implementation to build point clouds)"""
     import l1
+    import vlib
     cs = []
     dbg = True
     if prop == "C15":
@@ -924,6 +1000,40 @@ def cases_algo(prop, r, group, n, exe):
                            ops=ops, eps=gen.EPS, identical=identical, tags=["n%d" % cnt, "radius:%g" % radius] + tags))
         cs.append(dict(prop=prop, group=group, kind="c16empty", tags=["empty"],
                        reqs=[gen.req(dbg, "o", group, op, 0, [gen.EPS], [20]) for op in ops]))
+    elif prop == "C18":
+        G = gen.GROUPS[group]
+        for _ in range(n):
+            eps = r.choice([gen.EPS, 1e-8, 1e-3])
+            scale = r.choice([0.0, 0.001, 0.01, 0.3, 3.0, 100.0, 1e4])
+            X, tags = gen.element(r, group, norm="exact", lin_only=["zero", "tiny", "unit", "large", "huge"],
+                                  angle_only=["zero", "small", "low", "generic", "near-pi6", "exact"])
+            delta = []
+            for kind, k in G["tan"]:
+                d, _ = gen.direction(r, k if kind != "ang1" else 1)
+                delta += [scale * eps * x for x in d]
+            rc, o, err = vlib.run_lines(exe, [gen.req(dbg, "o", group, "rplus", 0, X + delta)])
+            if not o or not o[0].startswith("ok"):
+                continue
+            Y = [gen.of_hex(x) for x in o[0].split()[1:]]
+            Xn = neg_rotation_part(group, X)
+            reqs = [gen.req(dbg, "o", group, "isApprox", 0, X + Y + [eps]), gen.req(dbg, "o", group, "isApprox", 0, Y + X + [eps]),
+                    gen.req(dbg, "o", group, "isApprox", 0, X + X + [eps]), gen.req(dbg, "o", group, "isApprox", 0, X + X)]
+            if Xn:
+                reqs.append(gen.req(dbg, "o", group, "isApprox", 0, X + Xn + [eps]))
+            cs.append(dict(prop=prop, group=group, kind="c18", reqs=reqs, X=X, Y=Y, eps=eps,
+                           tags=["eps:%g" % eps, "dist:%g" % scale] + tags))
+            a, ta = gen.tangent(r, group, angle_only=["zero", "small", "low", "generic"], lin_only=["zero", "tiny", "unit", "large", "huge"])
+            mode = r.choice(["abs", "rel", "same"])
+            if mode == "abs":
+                a = [x * eps * r.choice([0.1, 0.5]) for x in a]
+                b = [x + scale * eps * r.uniform(-1, 1) for x in a]
+            elif mode == "rel":
+                b = [x * (1 + scale * eps * r.uniform(-1, 1)) for x in a]
+            else:
+                b = list(a)
+            cs.append(dict(prop=prop, group=group, kind="c18t", a=a, b=b, eps=eps, tags=["t", mode, "dist:%g" % scale] + ta,
+                           reqs=[gen.req(dbg, "o", group, "t_isApprox", 0, a + b + [eps]), gen.req(dbg, "o", group, "t_isApprox", 0, b + a + [eps]),
+                                 gen.req(dbg, "o", group, "t_isApprox", 0, a + a + [eps])]))
     elif prop == "C17":
         for _ in range(n):
             N = r.choice([3, 4, 5, 6, 7, 8, 10, 12])
